@@ -10,21 +10,6 @@ theorem optMapM_cons {α β : Type} (f : α → Option β) (a : α) (l : List α
   rw [List.mapM_cons]
   cases f a <;> cases l.mapM f <;> rfl
 
-/-- the part list names parts `c+1, c+2, …` -/
-def ConsecFrom : Nat → List (Option Int) → Prop
-  | _, [] => True
-  | c, o :: t => o = some ((c : Int) + 1) ∧ ConsecFrom (c + 1) t
-
-instance : ∀ (c : Nat) (l : List (Option Int)), Decidable (ConsecFrom c l)
-  | _, [] => isTrue trivial
-  | c, o :: t =>
-    have := instDecidableConsecFrom (c + 1) t
-    by unfold ConsecFrom; infer_instance
-
-/-- contents of the listed parts of upload `id`, in list order -/
-def partsOf (parts : List ((Nat × Int) × Bytes)) (id : Nat) (pl : List (Option Int)) : Option (List Bytes) :=
-  pl.mapM fun o => o.bind fun n => alLookup (id, n) parts
-
 def fp (id' : Nat) : (Nat × Int) × Bytes → Option (Int × Bytes) :=
   fun p => if p.1.1 = id' then some (p.1.2, p.2) else none
 
@@ -83,108 +68,101 @@ theorem optMapM_length {α β : Type} (f : α → Option β) :
         subst h
         simp [ih bs ht]
 
-/-- contents numbered `c+1, c+2, …` -/
-def numbered : Nat → List Bytes → List (Int × Bytes)
-  | _, [] => []
-  | c, x :: t => ((c : Int) + 1, x) :: numbered (c + 1) t
+/-- first pass: the numbers of the listed parts, as the store reads them -/
+theorem partNumbers_eq : ∀ (pl : List (Option Int)), partNumbers pl = pl.mapM (fun x => x)
+  | [] => by simp [partNumbers]
+  | none :: t => by rw [optMapM_cons]; rfl
+  | some n :: t => by
+    rw [optMapM_cons, ← partNumbers_eq t]
+    simp only [partNumbers]
+    cases partNumbers t <;> rfl
 
-theorem numbered_contents : ∀ (c : Nat) (cs : List Bytes), (numbered c cs).map (·.2) = cs
-  | _, [] => rfl
-  | c, x :: t => by simp [numbered, numbered_contents (c + 1) t]
+/-- second pass: the order test of the code (`windows(2).any(|w| w[0] >= w[1])`) is the store's (not strictly ascending) -/
+theorem outOfOrder_eq : ∀ (ns : List Int), outOfOrder ns = !ascending ns
+  | [] => rfl
+  | [_] => rfl
+  | a :: b :: t => by
+    have ih := outOfOrder_eq (b :: t)
+    by_cases h : a < b
+    · have h' : ¬ a ≥ b := by omega
+      simp [outOfOrder, ascending, h, h', ih]
+    · have h' : a ≥ b := by omega
+      simp [outOfOrder, ascending, h, h']
 
-/-- the validation loop of `complete_multipart_upload` on the part list `cnt+1, cnt+2, …` whose parts all exist: the
-    listed parts with their contents, in list order -/
-theorem completeParts_ok (id : Nat) (parts : List ((Nat × Int) × Bytes)) :
-    ∀ (l : List (Option Int)) (cnt : Nat) (cs : List Bytes),
-      ConsecFrom cnt l → partsOf parts id l = some cs → completeParts id parts l cnt = .ok (numbered cnt cs) := by
-  intro l
-  induction l with
-  | nil =>
-    intro cnt cs _ hp
-    unfold partsOf at hp
-    simp at hp
-    subst hp
-    rfl
-  | cons o t ih =>
-    intro cnt cs hcons hp
-    obtain ⟨ho, ht⟩ := hcons
-    subst ho
-    unfold partsOf at hp
-    rw [optMapM_cons] at hp
-    simp only [Option.bind_some] at hp
-    cases hl : alLookup (id, (cnt : Int) + 1) parts with
-    | none => simp [hl] at hp
+/-- strictly ascending, as a `Pairwise` -/
+theorem ascending_pairwise : ∀ (ns : List Int), ascending ns = true → ns.Pairwise (· < ·)
+  | [] => fun _ => List.Pairwise.nil
+  | [_] => fun _ => by simp
+  | a :: b :: t => fun h => by
+    simp only [ascending, Bool.and_eq_true, decide_eq_true_eq] at h
+    have ih := ascending_pairwise (b :: t) h.2
+    rw [List.pairwise_cons]
+    refine ⟨?_, ih⟩
+    intro x hx
+    rcases List.mem_cons.mp hx with rfl | hx
+    · exact h.1
+    · have := (List.pairwise_cons.mp ih).1 x hx
+      omega
+
+/-- third pass: the contents of the part files of the listed numbers, in list order — what the store looks up -/
+theorem partFiles_contents (id : Nat) (parts : List ((Nat × Int) × Bytes)) :
+    ∀ (ns : List Int), (partFiles id parts ns).map (·.map (·.2)) = ns.mapM (fun n => alLookup (id, n) parts)
+  | [] => by simp [partFiles]
+  | n :: t => by
+    rw [optMapM_cons, ← partFiles_contents id parts t]
+    simp only [partFiles]
+    cases alLookup (id, n) parts with
+    | none => rfl
+    | some c => cases partFiles id parts t <;> rfl
+
+/-- … paired with exactly the listed numbers -/
+theorem partFiles_numbers (id : Nat) (parts : List ((Nat × Int) × Bytes)) :
+    ∀ (ns : List Int) (ps : List (Int × Bytes)), partFiles id parts ns = some ps → ps.map (·.1) = ns
+  | [], ps, h => by simp [partFiles] at h; subst h; rfl
+  | n :: t, ps, h => by
+    unfold partFiles at h
+    cases hl : alLookup (id, n) parts with
+    | none => simp [hl] at h
     | some c =>
-      cases hrest : t.mapM (fun o => o.bind fun n => alLookup (id, n) parts) with
-      | none => simp [hl, hrest] at hp
-      | some cs' =>
-        simp [hl, hrest] at hp
-        subst hp
-        have hcast : ((cnt + 1 : Nat) : Int) = (cnt : Int) + 1 := by omega
-        have := ih (cnt + 1) cs' ht hrest
-        unfold completeParts
-        simp only [hcast, ne_eq, not_true_eq_false, if_false, hl, this, numbered]
+      cases ht : partFiles id parts t with
+      | none => simp [hl, ht] at h
+      | some qs =>
+        simp [hl, ht] at h
+        subst h
+        simp [partFiles_numbers id parts t qs ht]
 
-/-- … one of whose parts was never uploaded: `InvalidPart` -/
-theorem completeParts_missing (id : Nat) (parts : List ((Nat × Int) × Bytes)) :
-    ∀ (l : List (Option Int)) (cnt : Nat),
-      ConsecFrom cnt l → partsOf parts id l = none → completeParts id parts l cnt = .error .InvalidPart := by
-  intro l
-  induction l with
-  | nil =>
-    intro cnt _ hp
-    unfold partsOf at hp
-    simp at hp
-  | cons o t ih =>
-    intro cnt hcons hp
-    obtain ⟨ho, ht⟩ := hcons
-    subst ho
-    unfold partsOf at hp
-    rw [optMapM_cons] at hp
-    simp only [Option.bind_some] at hp
-    have hcast : ((cnt + 1 : Nat) : Int) = (cnt : Int) + 1 := by omega
-    cases hl : alLookup (id, (cnt : Int) + 1) parts with
-    | none =>
-      unfold completeParts
-      simp only [hcast, ne_eq, not_true_eq_false, if_false, hl]
+/-- … each content being that of the part file of its number -/
+theorem partFiles_mem (id : Nat) (parts : List ((Nat × Int) × Bytes)) :
+    ∀ (ns : List Int) (ps : List (Int × Bytes)), partFiles id parts ns = some ps →
+      ∀ e ∈ ps, alLookup (id, e.1) parts = some e.2
+  | [], ps, h => by simp [partFiles] at h; subst h; simp
+  | n :: t, ps, h => by
+    unfold partFiles at h
+    cases hl : alLookup (id, n) parts with
+    | none => simp [hl] at h
     | some c =>
-      cases hrest : t.mapM (fun o => o.bind fun n => alLookup (id, n) parts) with
-      | some cs' => simp [hl, hrest] at hp
-      | none =>
-        have := ih (cnt + 1) ht hrest
-        unfold completeParts
-        simp only [hcast, ne_eq, not_true_eq_false, if_false, hl, this]
+      cases ht : partFiles id parts t with
+      | none => simp [hl, ht] at h
+      | some qs =>
+        simp [hl, ht] at h
+        subst h
+        intro e he
+        rcases List.mem_cons.mp he with rfl | he
+        · exact hl
+        · exact partFiles_mem id parts t qs ht e he
 
-/-- the size rule of the code (`part_number != total && size < 5 MiB`) on parts numbered up to `total` is the store's
-    (every part but the last has the minimum size) -/
-theorem partTooSmall_numbered (total : Nat) :
-    ∀ (cs : List Bytes) (cnt : Nat), total = cnt + cs.length → partTooSmall total (numbered cnt cs) = !sizesOk cs := by
-  intro cs
-  induction cs with
-  | nil => intro _ _; rfl
-  | cons x t ih =>
-    intro cnt htot
-    cases t with
-    | nil =>
-      simp only [List.length_cons, List.length_nil] at htot
-      have : ((cnt : Int) + 1 ≠ (total : Int)) = False := by
-        apply propext; constructor
-        · intro h; exact h (by omega)
-        · intro h; exact h.elim
-      simp [partTooSmall, numbered, sizesOk, this]
-    | cons y r =>
-      have hrec := ih (cnt + 1) (by simp only [List.length_cons] at htot ⊢; omega)
-      have hne : (cnt : Int) + 1 ≠ (total : Int) := by
-        simp only [List.length_cons] at htot; omega
-      have hstep : partTooSmall total (numbered cnt (x :: y :: r)) =
-          (decide (x.length < minPartSize) || partTooSmall total (numbered (cnt + 1) (y :: r))) := by
-        simp [partTooSmall, numbered, hne]
-      rw [hstep, hrec]
-      by_cases hx : x.length < minPartSize
-      · have : ¬ x.length ≥ minPartSize := by omega
-        simp [sizesOk, hx, this]
-      · have : x.length ≥ minPartSize := by omega
-        simp [sizesOk, hx, this]
+/-- fourth pass: the size rule of the code (a part other than the last listed is below the minimum) is the store's -/
+theorem partTooSmall_eq : ∀ (ps : List (Int × Bytes)), partTooSmall ps = !sizesOk (ps.map (·.2))
+  | [] => rfl
+  | [_] => rfl
+  | a :: b :: t => by
+    have ih := partTooSmall_eq (b :: t)
+    simp only [List.map_cons] at ih
+    by_cases h : a.2.length < minPartSize
+    · have h' : ¬ a.2.length ≥ minPartSize := by omega
+      simp [partTooSmall, sizesOk, h, h']
+    · have h' : a.2.length ≥ minPartSize := by omega
+      simp [partTooSmall, sizesOk, h, h', ih]
 
 /-- removing the listed part files removes part files of this upload only -/
 theorem eraseParts_erased (id : Nat) : ∀ (ns : List Int) (parts : List ((Nat × Int) × Bytes)),
@@ -202,33 +180,6 @@ end S3V.FsStore
 
 namespace S3V.FsStore
 open S3V.StoreSpec
-
-/-- what the store computes from a part list `c+1, c+2, …`: the numbers, ascending, and the same contents -/
-theorem consec_spec {β : Type} (P : List (Int × β)) :
-    ∀ (pl : List (Option Int)) (c : Nat), ConsecFrom c pl →
-      ∃ ns, pl.mapM (fun x => x) = some ns ∧ ascending ns = true ∧ (∀ x, ns.head? = some x → (c : Int) < x) ∧
-        ns.mapM (fun n => alLookup n P) = pl.mapM (fun o => o.bind fun n => alLookup n P) := by
-  intro pl
-  induction pl with
-  | nil => intro c _; exact ⟨[], by simp, rfl, by simp, by simp⟩
-  | cons o t ih =>
-    intro c hc
-    obtain ⟨ho, ht⟩ := hc
-    subst ho
-    obtain ⟨ns, h1, h2, h3, h4⟩ := ih (c + 1) ht
-    refine ⟨((c : Int) + 1) :: ns, ?_, ?_, ?_, ?_⟩
-    · rw [optMapM_cons, h1]; rfl
-    · cases ns with
-      | nil => rfl
-      | cons b r =>
-        have := h3 b rfl
-        simp only [ascending, Bool.and_eq_true, decide_eq_true_eq]
-        exact ⟨by omega, h2⟩
-    · intro x hx
-      simp at hx
-      omega
-    · rw [optMapM_cons, optMapM_cons, h4]
-      rfl
 
 theorem absParts_lookup {s : State} (hi : Inv s) (id : Nat) (n : Int) :
     alLookup n (absParts s id) = alLookup (id, n) s.parts := by
@@ -266,27 +217,40 @@ def CompleteSuccessOk (s : State) (b k : Bytes) (_id : Nat) : Prop :=
     | none => True
     | some t => sideTooLong b k true = false ∧ WriteOk t p
 
-/-- what must hold for the owner's `complete_multipart_upload` to be compared with the store: the part list is
-    `1, 2, …, m` [else fs:complete-requires-consecutive-parts, fs:complete-part-list-validation]; the names are admissible
-    and the key canonical. A complete that fails validation — a listed part was never uploaded (`InvalidPart`), a part
-    other than the last is below the minimum size (`EntityTooSmall`) — is inside (since the repair of
-    fs:failed-complete-consumes-upload / fs:complete-missing-part-internal-error nothing is changed by it); one that passes
-    must meet `CompleteSuccessOk` -/
-def CompleteOwnerOk (s : State) (b k : Bytes) (id : Nat) (pl : List (Option Int)) : Prop :=
-  ConsecFrom 0 pl ∧ bucketOk b = true ∧ CanonKey k ∧ (keyPath k).isSome = true ∧
-  (match partsOf s.parts id pl with
-    | none => True
-    | some cs => sizesOk cs = true → CompleteSuccessOk s b k id)
+/-- the contents of the listed parts of upload `id`, in list order, when the part list passes the validation the store
+    prescribes: every listed part has a number, the numbers are strictly ascending, every listed part was uploaded, every
+    part but the last has the minimum size -/
+def validParts (parts : List ((Nat × Int) × Bytes)) (id : Nat) (pl : List (Option Int)) : Option (List Bytes) :=
+  match pl.mapM (fun x => x) with
+  | none => none
+  | some ns =>
+    if ascending ns then
+      match ns.mapM (fun n => alLookup (id, n) parts) with
+      | none => none
+      | some cs => if sizesOk cs then some cs else none
+    else none
 
-/-- `complete_multipart_upload` comparable: a non-empty part list is given [else fs:complete-part-list-validation]; the
-    upload does not exist under this bucket and key (`NoSuchUpload` on both sides since 4609ab3 and, for an upload created
-    for another bucket or key, 41e1cf2; before: fs:unknown-upload-code, fs:upload-not-bound-to-key), or, if the requester owns
-    it, the request meets `CompleteOwnerOk` -/
+/-- what must hold for the owner's `complete_multipart_upload` to be compared with the store: the names are admissible and
+    the key canonical. EVERY part list is inside (fa59617, a00e4e8; before, only the lists `1, 2, …, m` were:
+    fs:complete-requires-consecutive-parts, fs:complete-part-list-validation): a complete that fails validation — a part
+    without a number (`MalformedXML`), numbers not strictly ascending (`InvalidPartOrder`), a listed part that was never
+    uploaded (`InvalidPart`), a part other than the last below the minimum size (`EntityTooSmall`), in this order — is
+    answered alike and changes nothing (0096ef4); one that passes (`validParts`) must meet `CompleteSuccessOk` -/
+def CompleteOwnerOk (s : State) (b k : Bytes) (id : Nat) (pl : List (Option Int)) : Prop :=
+  bucketOk b = true ∧ CanonKey k ∧ (keyPath k).isSome = true ∧
+  (match validParts s.parts id pl with
+    | none => True
+    | some _ => CompleteSuccessOk s b k id)
+
+/-- `complete_multipart_upload` comparable: a request without a part list or with an empty one is inside (`MalformedXML` on
+    both sides, before the upload is looked at: a00e4e8; before: fs:complete-part-list-validation); the upload does not
+    exist under this bucket and key (`NoSuchUpload` on both sides since 4609ab3 and, for an upload created for another
+    bucket or key, 41e1cf2; before: fs:unknown-upload-code, fs:upload-not-bound-to-key), or, if the requester owns it, the
+    request meets `CompleteOwnerOk` -/
 def CompleteOk (s : State) (who : Who) (b k : Bytes) (u : UploadRef) (parts : Option (List (Option Int))) : Prop :=
   match parts with
-  | none => False
+  | none => True
   | some pl =>
-    pl ≠ [] ∧
     match u with
     | none => True
     | some id =>
@@ -383,24 +347,25 @@ theorem complete_refines (H : Hashes) (dl : Nat) {s : State} (hi : Inv s) {who :
     Inv (step H dl s (.completeMultipartUpload who b k u parts)).1 := by
   unfold CompleteOk at hg
   cases parts with
-  | none => exact absurd hg (by simp)
+  | none =>
+    -- no part list: `MalformedXML` on both sides
+    simp [step, StoreSpec.step, hi]
   | some pl =>
+  cases pl with
+  | nil =>
+    -- an empty part list: `MalformedXML` on both sides
+    simp [step, StoreSpec.step, hi]
+  | cons o t =>
     simp only at hg
-    obtain ⟨hne, hg⟩ := hg
     cases u with
-    | none =>
-      cases pl with
-      | nil => exact absurd rfl hne
-      | cons o t => simp [step, StoreSpec.step, Store.upload, hi]
+    | none => simp [step, StoreSpec.step, Store.upload, hi]
     | some id =>
       simp only at hg
       cases hl : alLookup id s.uploads with
       | none =>
         have habs : AbsentUpload s (some id) b k := by simp [AbsentUpload, hl]
         have hup := habs.upload
-        cases pl with
-        | nil => exact absurd rfl hne
-        | cons o t => simp [step, StoreSpec.step, hup, habs.verify who, hi]
+        simp [step, StoreSpec.step, hup, habs.verify who, hi]
       | some ui =>
         rw [hl] at hg
         simp only at hg
@@ -409,139 +374,162 @@ theorem complete_refines (H : Hashes) (dl : Nat) {s : State} (hi : Inv s) {who :
           -- created for another bucket or key: `NoSuchUpload` on both sides (41e1cf2)
           have habs : AbsentUpload s (some id) b k := by simp only [AbsentUpload, hl]; exact hbk
           have hup := habs.upload
-          cases pl with
-          | nil => exact absurd rfl hne
-          | cons o t => simp [step, StoreSpec.step, hup, habs.verify who, hi]
+          simp [step, StoreSpec.step, hup, habs.verify who, hi]
         obtain ⟨hub, huk⟩ := hbk
         have hsucc := hg ⟨hub, huk⟩
         have hup : (abs s).upload (some id) b k = some (id, upOf s id ui) := by
           unfold Store.upload
           simp only [abs_upload_lookup, hl, Option.map_some]
           simp [upOf, hub, huk]
-        cases pl with
-        | nil => exact absurd rfl hne
-        | cons o t =>
-          by_cases hown : ui.owner = who
-          · obtain ⟨hcons, hbo, ⟨_, hcanon⟩, hksome, hrest⟩ := hsucc hown
-            have hbd := bucketDir_of_bucketOk hbo
-            cases hkp : keyPath k with
-            | none => rw [hkp] at hksome; exact absurd hksome (by simp)
-            | some p =>
-              rw [hkp] at hcanon
-              simp only at hcanon
-              -- the store's side of the validation
-              obtain ⟨ns, hs1, hs2, _, hs4⟩ := consec_spec (absParts s id) (o :: t) 0 hcons
-              have hs4' : ns.mapM (fun n => alLookup n (absParts s id)) = partsOf s.parts id (o :: t) := by
-                rw [hs4]
-                unfold partsOf
-                congr 1
-                funext o'
-                cases o' with
-                | none => rfl
-                | some n => simp [absParts_lookup hi]
-              have hown' : ¬ (upOf s id ui).owner ≠ who := by simp [upOf, hown]
-              have hpp : (upOf s id ui).parts = absParts s id := rfl
-              cases hcs : partsOf s.parts id (o :: t) with
-              | none =>
-                -- a listed part was never uploaded: `InvalidPart` on both sides, nothing changes
-                have hm := completeParts_missing id s.parts (o :: t) 0 hcons hcs
-                rw [hcs] at hs4'
+        by_cases hown : ui.owner = who
+        · obtain ⟨hbo, ⟨_, hcanon⟩, hksome, hrest⟩ := hsucc hown
+          have hbd := bucketDir_of_bucketOk hbo
+          cases hkp : keyPath k with
+          | none => rw [hkp] at hksome; exact absurd hksome (by simp)
+          | some p =>
+            rw [hkp] at hcanon
+            simp only at hcanon
+            have hown' : ¬ (upOf s id ui).owner ≠ who := by simp [upOf, hown]
+            have hpp : (upOf s id ui).parts = absParts s id := rfl
+            have hlook : ∀ ns : List Int, ns.mapM (fun n => alLookup n (absParts s id)) =
+                ns.mapM (fun n => alLookup (id, n) s.parts) := by
+              intro ns; congr 1; funext n; exact absParts_lookup hi id n
+            have hpn := partNumbers_eq (o :: t)
+            -- first pass: the numbers
+            cases hs1 : (o :: t).mapM (fun x => x) with
+            | none =>
+              rw [hs1] at hpn
+              have hstep : step H dl s (.completeMultipartUpload who b k (some id) (some (o :: t))) =
+                  (s, .err .MalformedXML) := by
+                simp [step, State.verify, findUpload_bound hl hub huk, hown, objPath, hbd, hkp, hpn]
+              have hspec : StoreSpec.step H (abs s) (.completeMultipartUpload who b k (some id) (some (o :: t))) =
+                  (abs s, .err .MalformedXML) := by
+                simp [StoreSpec.step, hup, hown', hs1]
+              rw [hstep, hspec]
+              exact ⟨rfl, rfl, hi⟩
+            | some ns =>
+            rw [hs1] at hpn
+            have hoo := outOfOrder_eq ns
+            -- second pass: the order
+            cases hs2 : ascending ns with
+            | false =>
+              rw [hs2] at hoo
+              have hstep : step H dl s (.completeMultipartUpload who b k (some id) (some (o :: t))) =
+                  (s, .err .InvalidPartOrder) := by
+                simp [step, State.verify, findUpload_bound hl hub huk, hown, objPath, hbd, hkp, hpn, hoo]
+              have hspec : StoreSpec.step H (abs s) (.completeMultipartUpload who b k (some id) (some (o :: t))) =
+                  (abs s, .err .InvalidPartOrder) := by
+                simp [StoreSpec.step, hup, hown', hs1, hs2]
+              rw [hstep, hspec]
+              exact ⟨rfl, rfl, hi⟩
+            | true =>
+            rw [hs2] at hoo
+            simp only [Bool.not_true] at hoo
+            have hpc := partFiles_contents id s.parts ns
+            -- third pass: the part files
+            cases hpf : partFiles id s.parts ns with
+            | none =>
+              -- a listed part was never uploaded: `InvalidPart` on both sides, nothing changes
+              rw [hpf] at hpc
+              have hs4 : ns.mapM (fun n => alLookup n (absParts s id)) = none := by rw [hlook]; exact hpc.symm
+              have hstep : step H dl s (.completeMultipartUpload who b k (some id) (some (o :: t))) =
+                  (s, .err .InvalidPart) := by
+                simp [step, State.verify, findUpload_bound hl hub huk, hown, objPath, hbd, hkp, hpn, hoo, hpf]
+              have hspec : StoreSpec.step H (abs s) (.completeMultipartUpload who b k (some id) (some (o :: t))) =
+                  (abs s, .err .InvalidPart) := by
+                simp [StoreSpec.step, hup, hown', hs1, hs2, hpp, hs4]
+              rw [hstep, hspec]
+              exact ⟨rfl, rfl, hi⟩
+            | some ps =>
+              rw [hpf] at hpc
+              simp only [Option.map_some] at hpc
+              have hs4 : ns.mapM (fun n => alLookup n (absParts s id)) = some (ps.map (·.2)) := by
+                rw [hlook]; exact hpc.symm
+              have hts := partTooSmall_eq ps
+              -- fourth pass: the sizes
+              cases hsz : sizesOk (ps.map (·.2)) with
+              | false =>
+                -- a part other than the last is too small: `EntityTooSmall` on both sides, nothing changes
+                rw [hsz] at hts
                 have hstep : step H dl s (.completeMultipartUpload who b k (some id) (some (o :: t))) =
-                    (s, .err .InvalidPart) := by
-                  simp [step, State.verify, findUpload_bound hl hub huk, hown, objPath, hbd, hkp, hm]
+                    (s, .err .EntityTooSmall) := by
+                  simp [step, State.verify, findUpload_bound hl hub huk, hown, objPath, hbd, hkp, hpn, hoo, hpf, hts]
                 have hspec : StoreSpec.step H (abs s) (.completeMultipartUpload who b k (some id) (some (o :: t))) =
-                    (abs s, .err .InvalidPart) := by
-                  simp [StoreSpec.step, hup, hown', hs1, hs2, hpp, hs4']
+                    (abs s, .err .EntityTooSmall) := by
+                  simp [StoreSpec.step, hup, hown', hs1, hs2, hpp, hs4, hsz]
                 rw [hstep, hspec]
                 exact ⟨rfl, rfl, hi⟩
-              | some cs =>
-                rw [hcs] at hs4' hrest
-                simp only at hrest
-                have hm := completeParts_ok id s.parts (o :: t) 0 cs hcons hcs
-                have hlen : cs.length = (o :: t).length := by
-                  unfold partsOf at hcs
-                  exact optMapM_length _ _ _ hcs
-                have hts := partTooSmall_numbered (t.length + 1) cs 0 (by simp only [List.length_cons] at hlen; omega)
-                cases hsz : sizesOk cs with
-                | false =>
-                  -- a part other than the last is too small: `EntityTooSmall` on both sides, nothing changes
-                  rw [hsz] at hts
+              | true =>
+                rw [hsz] at hts
+                simp only [Bool.not_true] at hts
+                have hvalid : validParts s.parts id (o :: t) = some (ps.map (·.2)) := by
+                  simp [validParts, hs1, hs2, ← hpc, hsz]
+                rw [hvalid] at hrest
+                have hpath : CompleteSuccessOk s b k id := hrest
+                unfold CompleteSuccessOk at hpath
+                rw [hkp] at hpath
+                simp only at hpath
+                cases ht : s.tree b with
+                | none =>
+                  -- the bucket no longer exists: `NoSuchBucket` on both sides, nothing changes
+                  have hno : alHas b s.buckets = false := by unfold State.tree at ht; simp [alHas, ht]
+                  have hno' : alHas b (abs s).buckets = false := by rw [abs_alHas]; exact hno
                   have hstep : step H dl s (.completeMultipartUpload who b k (some id) (some (o :: t))) =
-                      (s, .err .EntityTooSmall) := by
-                    simp [step, State.verify, findUpload_bound hl hub huk, hown, objPath, hbd, hkp, hm, hts]
+                      (s, .err .NoSuchBucket) := by
+                    simp [step, State.verify, findUpload_bound hl hub huk, hown, objPath, hbd, hkp, hpn, hoo, hpf, hts, hno]
                   have hspec : StoreSpec.step H (abs s) (.completeMultipartUpload who b k (some id) (some (o :: t))) =
-                      (abs s, .err .EntityTooSmall) := by
-                    simp [StoreSpec.step, hup, hown', hs1, hs2, hpp, hs4', hsz]
+                      (abs s, .err .NoSuchBucket) := by
+                    simp [StoreSpec.step, hup, hown', hs1, hs2, hpp, hs4, hsz, hno']
                   rw [hstep, hspec]
                   exact ⟨rfl, rfl, hi⟩
-                | true =>
-                  rw [hsz] at hts
-                  have hpath := hrest hsz
-                  unfold CompleteSuccessOk at hpath
-                  rw [hkp] at hpath
+                | some tr =>
+                  rw [ht] at hpath
                   simp only at hpath
-                  cases ht : s.tree b with
+                  obtain ⟨hshort, hpath⟩ := hpath
+                  have hshort' := sideTooLong_mono hshort
+                  have hyes : alHas b s.buckets = true := by unfold State.tree at ht; simp [alHas, ht]
+                  have hp : PathOk p := keyPath_pathOk hkp
+                  have hmem := tree_mem ht
+                  have her : Erased id s.parts (eraseParts id (ps.map (·.1)) s.parts) :=
+                    eraseParts_erased id _ s.parts
+                  have hhas : alHas b (abs s).buckets = true := by
+                    rw [abs_alHas]; unfold State.tree at ht; simp [alHas, ht]
+                  have hspec : StoreSpec.step H (abs s) (.completeMultipartUpload who b k (some id) (some (o :: t))) =
+                      ({ ((abs s).setObj b k ⟨(ps.map (·.2)).flatten, (upOf s id ui).md, {}⟩) with
+                          uploads := alErase id (abs s).uploads }, .completed (some (etagOf H (ps.map (·.2)).flatten))) := by
+                    simp [StoreSpec.step, hup, hown', hs1, hs2, hpp, hs4, hsz, hhas, Store.setObj]
+                  obtain ⟨ds, hds, hnd, hcommit⟩ := commitFile_ok s b p (ps.map (·.2)).flatten tr
+                    (by show (alLookup b s.buckets).getD [] = tr; unfold State.tree at ht; rw [ht]; rfl)
+                    hpath (hi.tnd _ hmem) hp
+                  cases hum : alLookup (b, k, id) s.upMetas with
                   | none =>
-                    -- the bucket no longer exists: `NoSuchBucket` on both sides, nothing changes
-                    have hno : alHas b s.buckets = false := by unfold State.tree at ht; simp [alHas, ht]
-                    have hno' : alHas b (abs s).buckets = false := by rw [abs_alHas]; exact hno
                     have hstep : step H dl s (.completeMultipartUpload who b k (some id) (some (o :: t))) =
-                        (s, .err .NoSuchBucket) := by
-                      simp [step, State.verify, findUpload_bound hl hub huk, hown, objPath, hbd, hkp, hm, hts, hno]
-                    have hspec : StoreSpec.step H (abs s) (.completeMultipartUpload who b k (some id) (some (o :: t))) =
-                        (abs s, .err .NoSuchBucket) := by
-                      simp [StoreSpec.step, hup, hown', hs1, hs2, hpp, hs4', hsz, hno']
+                        ({ s with buckets := alInsert b (alInsert p (.file (ps.map (·.2)).flatten) (tr ++ ds)) s.buckets,
+                                  metas := alErase (b, k) s.metas, infos := alInsert (b, k) {} s.infos,
+                                  parts := eraseParts id (ps.map (·.1)) s.parts,
+                                  uploads := alErase id s.uploads },
+                          .completed (some (etagOf H (ps.map (·.2)).flatten))) := by
+                      simp [step, State.verify, findUpload_bound hl hub huk, hown, hshort, hshort', hum, objPath, hbd, hkp, hpn, hoo, hpf, hts, hyes, hcommit]
                     rw [hstep, hspec]
-                    exact ⟨rfl, rfl, hi⟩
-                  | some tr =>
-                    rw [ht] at hpath
-                    simp only at hpath
-                    obtain ⟨hshort, hpath⟩ := hpath
-                    have hshort' := sideTooLong_mono hshort
-                    have hyes : alHas b s.buckets = true := by unfold State.tree at ht; simp [alHas, ht]
-                    have hp : PathOk p := keyPath_pathOk hkp
-                    have hmem := tree_mem ht
-                    have her : Erased id s.parts (eraseParts id ((numbered 0 cs).map (·.1)) s.parts) :=
-                      eraseParts_erased id _ s.parts
-                    have hcont : ((numbered 0 cs).map (·.2)).flatten = cs.flatten := by rw [numbered_contents]
-                    have hhas : alHas b (abs s).buckets = true := by
-                      rw [abs_alHas]; unfold State.tree at ht; simp [alHas, ht]
-                    have hspec : StoreSpec.step H (abs s) (.completeMultipartUpload who b k (some id) (some (o :: t))) =
-                        ({ ((abs s).setObj b k ⟨cs.flatten, (upOf s id ui).md, {}⟩) with
-                            uploads := alErase id (abs s).uploads }, .completed (some (etagOf H cs.flatten))) := by
-                      simp [StoreSpec.step, hup, hown', hs1, hs2, hpp, hs4', hsz, hhas, Store.setObj]
-                    obtain ⟨ds, hds, hnd, hcommit⟩ := commitFile_ok s b p cs.flatten tr
-                      (by show (alLookup b s.buckets).getD [] = tr; unfold State.tree at ht; rw [ht]; rfl)
-                      hpath (hi.tnd _ hmem) hp
-                    cases hum : alLookup (b, k, id) s.upMetas with
-                    | none =>
-                      have hstep : step H dl s (.completeMultipartUpload who b k (some id) (some (o :: t))) =
-                          ({ s with buckets := alInsert b (alInsert p (.file cs.flatten) (tr ++ ds)) s.buckets,
-                                    metas := alErase (b, k) s.metas, infos := alInsert (b, k) {} s.infos,
-                                    parts := eraseParts id ((numbered 0 cs).map (·.1)) s.parts,
-                                    uploads := alErase id s.uploads },
-                            .completed (some (etagOf H cs.flatten))) := by
-                        simp [step, State.verify, findUpload_bound hl hub huk, hown, hshort, hshort', hum, objPath, hbd, hkp, hm, hts, hyes, hcont, hcommit]
-                      rw [hstep, hspec]
-                      obtain ⟨h1, h2⟩ := complete_core (s' := { s with buckets := alInsert b (alInsert p (.file cs.flatten) (tr ++ ds)) s.buckets, metas := alErase (b, k) s.metas, infos := alInsert (b, k) {} s.infos, parts := eraseParts id ((numbered 0 cs).map (·.1)) s.parts, uploads := alErase id s.uploads })
-                        hi hl hub huk ht hp hcanon hpath.2 hds hnd her rfl (by rw [hum]; rfl) (by rw [hum]; rfl)
-                        rfl rfl rfl rfl
-                      exact ⟨rfl, h1, h2⟩
-                    | some m =>
-                      have hstep : step H dl s (.completeMultipartUpload who b k (some id) (some (o :: t))) =
-                          ({ s with buckets := alInsert b (alInsert p (.file cs.flatten) (tr ++ ds)) s.buckets,
-                                    metas := alInsert (b, k) (.good m) s.metas, upMetas := alErase (b, k, id) s.upMetas,
-                                    infos := alInsert (b, k) {} s.infos,
-                                    parts := eraseParts id ((numbered 0 cs).map (·.1)) s.parts,
-                                    uploads := alErase id s.uploads },
-                            .completed (some (etagOf H cs.flatten))) := by
-                        simp [step, State.verify, findUpload_bound hl hub huk, hown, hshort, hshort', hum, objPath, hbd, hkp, hm, hts, hyes, hcont, hcommit]
-                      rw [hstep, hspec]
-                      obtain ⟨h1, h2⟩ := complete_core (s' := { s with buckets := alInsert b (alInsert p (.file cs.flatten) (tr ++ ds)) s.buckets, metas := alInsert (b, k) (.good m) s.metas, upMetas := alErase (b, k, id) s.upMetas, infos := alInsert (b, k) {} s.infos, parts := eraseParts id ((numbered 0 cs).map (·.1)) s.parts, uploads := alErase id s.uploads })
-                        hi hl hub huk ht hp hcanon hpath.2 hds hnd her rfl (by rw [hum]; rfl) (by rw [hum]; rfl)
-                        rfl rfl rfl rfl
-                      exact ⟨rfl, h1, h2⟩
-          · have hown' : (upOf s id ui).owner ≠ who := hown
-            simp [step, StoreSpec.step, State.verify, findUpload_bound hl hub huk, hown, hup, hown', hi]
+                    obtain ⟨h1, h2⟩ := complete_core (s' := { s with buckets := alInsert b (alInsert p (.file (ps.map (·.2)).flatten) (tr ++ ds)) s.buckets, metas := alErase (b, k) s.metas, infos := alInsert (b, k) {} s.infos, parts := eraseParts id (ps.map (·.1)) s.parts, uploads := alErase id s.uploads })
+                      hi hl hub huk ht hp hcanon hpath.2 hds hnd her rfl (by rw [hum]; rfl) (by rw [hum]; rfl)
+                      rfl rfl rfl rfl
+                    exact ⟨rfl, h1, h2⟩
+                  | some m =>
+                    have hstep : step H dl s (.completeMultipartUpload who b k (some id) (some (o :: t))) =
+                        ({ s with buckets := alInsert b (alInsert p (.file (ps.map (·.2)).flatten) (tr ++ ds)) s.buckets,
+                                  metas := alInsert (b, k) (.good m) s.metas, upMetas := alErase (b, k, id) s.upMetas,
+                                  infos := alInsert (b, k) {} s.infos,
+                                  parts := eraseParts id (ps.map (·.1)) s.parts,
+                                  uploads := alErase id s.uploads },
+                          .completed (some (etagOf H (ps.map (·.2)).flatten))) := by
+                      simp [step, State.verify, findUpload_bound hl hub huk, hown, hshort, hshort', hum, objPath, hbd, hkp, hpn, hoo, hpf, hts, hyes, hcommit]
+                    rw [hstep, hspec]
+                    obtain ⟨h1, h2⟩ := complete_core (s' := { s with buckets := alInsert b (alInsert p (.file (ps.map (·.2)).flatten) (tr ++ ds)) s.buckets, metas := alInsert (b, k) (.good m) s.metas, upMetas := alErase (b, k, id) s.upMetas, infos := alInsert (b, k) {} s.infos, parts := eraseParts id (ps.map (·.1)) s.parts, uploads := alErase id s.uploads })
+                      hi hl hub huk ht hp hcanon hpath.2 hds hnd her rfl (by rw [hum]; rfl) (by rw [hum]; rfl)
+                      rfl rfl rfl rfl
+                    exact ⟨rfl, h1, h2⟩
+        · have hown' : (upOf s id ui).owner ≠ who := hown
+          simp [step, StoreSpec.step, State.verify, findUpload_bound hl hub huk, hown, hup, hown', hi]
 
 end S3V.FsStore
